@@ -390,12 +390,14 @@ fn interrupt_lost() {
 /// value: the target parks with nobody left to unpark it.  No scheduling is forced: the request is
 /// made while the script is in a loop of primitive calls, which is all the solver's schedule needs.
 static DRAINED: AtomicBool = AtomicBool::new(false);
+static ARMED: AtomicBool = AtomicBool::new(false);
 fn drain_token_callback(id: u32, _arg: usize) {
     // The engine thread usually carries a stale unpark token (every world-stop it performs ends
     // with resume_threads unparking all registered threads, itself included).  The solver's
     // schedule starts from "no token", a state the real system reaches whenever the thread has
-    // really parked once; it is established here by consuming the token.
-    if id == hook::POLL && !DRAINED.swap(true, Ordering::SeqCst) {
+    // really parked once; it is established here by consuming the token once the evaluation is
+    // in its loop (no world-stop follows, so no new token appears).
+    if id == hook::POLL && ARMED.load(Ordering::SeqCst) && !DRAINED.swap(true, Ordering::SeqCst) {
         std::thread::park_timeout(Duration::from_millis(0));
     }
 }
@@ -405,13 +407,20 @@ fn interrupt_hang() {
     let mut engine = Engine::new();
     let controller = engine.get_thread_state_controller();
     hook::set(Some(drain_token_callback));
+    engine.run("(require-builtin steel/time)".to_string()).unwrap();
     engine
-        .run("(define (busy n acc) (if (= n 0) acc (busy (- n 1) (+ acc (length (list n n))))))".to_string())
+        .run(
+            r#"(define (spin n) (if (= n 0) 0 (spin (- n 1))))
+               (define (busy k) (if (= k 0) 'done (begin (time/sleep-ms 1) (spin 50) (busy (- k 1)))))"#
+                .to_string(),
+        )
         .unwrap();
     let done = std::sync::Arc::new(AtomicBool::new(false));
     let done2 = done.clone();
     let host = std::thread::spawn(move || {
-        std::thread::sleep(Duration::from_millis(300));
+        std::thread::sleep(Duration::from_millis(250));
+        ARMED.store(true, Ordering::SeqCst);
+        std::thread::sleep(Duration::from_millis(50));
         controller.interrupt();
         let t0 = Instant::now();
         while t0.elapsed() < Duration::from_secs(10) {
@@ -423,7 +432,9 @@ fn interrupt_hang() {
         println!("OBSERVED: 10 s after interrupt() returned the evaluation has neither stopped with an error nor finished: the interrupted thread is parked and nothing will unpark it");
         std::process::exit(3);
     });
-    let res = engine.run("(busy 200000000 0)".to_string());
+    // the loop spends most of its time inside a primitive (time/sleep-ms), which is where the
+    // solver's schedule has the target when interrupt() completes
+    let res = engine.run("(busy 30000)".to_string());
     done.store(true, Ordering::SeqCst);
     host.join().unwrap();
     match res {
